@@ -19,3 +19,11 @@ func firstFrames(s string) string {
 	}
 	return strings.Join(out, " | ")
 }
+
+type runtimeMem struct{ total uint64 }
+
+func readMem(m *runtimeMem) {
+	var ms runtime.MemStats
+	runtime.ReadMemStats(&ms)
+	m.total = ms.TotalAlloc
+}
